@@ -494,6 +494,10 @@ func ruleR12() *Rule {
 					}
 					sort.Strings(cf)
 					for _, f := range cf {
+						if !allow[f] && reinitialisedBeforeUse(c.p, vfn, sp.Struct, f) {
+							c.ok(name+"/carry/"+f, c.pos(carried[f]), "field "+f+" of a reused "+sp.Struct+" is carried over the reset as storage only: nothing reads through it, here or elsewhere, before it has been re-initialised (Initialize / Reset on it, or a fresh object stored)")
+							continue
+						}
 						c.check(allow[f], name+"/carry/"+f, c.pos(carried[f]), "state carried over the reset of a reused "+sp.Struct+" is a tabled buffer (allowed: "+strings.Join(sp.Allow, ",")+")",
 							"field "+f+" survives the reset of a reused object: a reused "+sp.Struct+" would behave differently from a fresh one")
 					}
@@ -616,4 +620,86 @@ func valueMayBe(v, x ssa.Value) bool {
 		return false
 	}
 	return rec(v)
+}
+
+// reinitialisedBeforeUse: field sn.fld (a pointer to some reusable cursor) is, in fn, only nil-tested,
+// re-pointed (a method named Initialize / Reset / reset called on it, or a fresh allocation stored into
+// it) and — after such a re-pointing on every path — read; and no other function of the package reads it.
+func reinitialisedBeforeUse(p *Program, fn *ssa.Function, sn, fld string) bool {
+	for _, g := range p.ZapFuncs {
+		if g == fn || rootParent(g) == fn {
+			continue
+		}
+		found := false
+		eachInstr(g, func(_ *ssa.BasicBlock, in ssa.Instruction) {
+			if u, ok := in.(*ssa.UnOp); ok && isLoadOfField(u, sn, fld) {
+				found = true
+			}
+		})
+		if found {
+			return false
+		}
+	}
+	isReinit := func(in ssa.Instruction) bool {
+		switch x := in.(type) {
+		case ssa.CallInstruction:
+			f := staticCallee(x)
+			if f == nil || len(x.Common().Args) == 0 {
+				return false
+			}
+			switch f.Name() {
+			case "Initialize", "Reset", "reset":
+				return isLoadOfField(x.Common().Args[0], sn, fld)
+			}
+		case *ssa.Store:
+			if s2, f2, _, ok := fieldOf(x.Addr); ok && s2 == sn && f2 == fld {
+				if _, fresh := root(x.Val).(*ssa.Alloc); fresh {
+					return true
+				}
+			}
+		}
+		return false
+	}
+	pa := newPathAnalysis(fn, func(in ssa.Instruction, ev uint64, _ bool) []uint64 {
+		if isReinit(in) {
+			return []uint64{ev | 1}
+		}
+		return nil
+	})
+	pa.run(0)
+	ok := true
+	n := 0
+	eachInstr(fn, func(_ *ssa.BasicBlock, in ssa.Instruction) {
+		u, isU := in.(*ssa.UnOp)
+		if !isU || !isLoadOfField(u, sn, fld) || u.Referrers() == nil {
+			return
+		}
+		for _, r := range *u.Referrers() {
+			switch x := r.(type) {
+			case *ssa.DebugRef:
+				continue
+			case *ssa.BinOp:
+				if (x.Op == token.EQL || x.Op == token.NEQ) && (isNilConst(x.X) || isNilConst(x.Y)) {
+					continue
+				}
+			case ssa.CallInstruction:
+				if isReinit(x) {
+					n++
+					continue
+				}
+			case *ssa.Store:
+				// carried across the whole-struct reset: stored back into its own field (directly or
+				// through the composite literal that replaces the struct)
+				if s2, f2, _, okf := fieldOf(x.Addr); okf && s2 == sn && f2 == fld && x.Val == ssa.Value(u) {
+					continue
+				}
+			}
+			for _, ev := range pa.statesBefore(r) {
+				if ev&1 == 0 {
+					ok = false
+				}
+			}
+		}
+	})
+	return ok && n > 0
 }
